@@ -6,6 +6,7 @@
    and buffers.  Proofs: Proofs/RegexProofs.v. *)
 From Coq Require Import List Arith NArith Sorting.Sorted.
 From YV Require Import Base.Bytes Spec.RegexSpec Proofs.RegexProofs.
+From Coq Require Lia.
 Import ListNotations.
 
 (* the reference computes exactly the declarative relation, for every expression, buffer and position *)
@@ -36,3 +37,16 @@ Example regex_example :
 Proof. vm_compute. split; reflexivity. Qed.
 (* not proved (correspondence only): that the bytecode emitted by re.c and the fiber VM of re.c accept
    exactly this language (emit_sound_complete, vm_sound/vm_complete of the design). *)
+
+(* Source tie of the case table: what the implementation's altercase table (regenerated from /repo on every run) does to each of the 256
+   byte values is the documented case folding used by `nocase` and /i: letters A-Z and a-z swap case, every other byte is left alone. *)
+Theorem altercase_table_is_documented : forall b : N, (b < 256)%N ->
+  alter_b b = if ((65 <=? b)%N && (b <=? 90)%N)%bool then (b + 32)%N else if ((97 <=? b)%N && (b <=? 122)%N)%bool then (b - 32)%N else b.
+Proof.
+  assert (H : forallb (fun n => N.eqb (alter_b (N.of_nat n))
+                 (let b := N.of_nat n in if ((65 <=? b)%N && (b <=? 90)%N)%bool then (b + 32)%N else if ((97 <=? b)%N && (b <=? 122)%N)%bool then (b - 32)%N else b))
+                      (seq 0 256) = true) by (vm_compute; reflexivity).
+  intros b Hb. rewrite forallb_forall in H. specialize (H (N.to_nat b)).
+  rewrite Nnat.N2Nat.id in H. apply N.eqb_eq. apply H. apply in_seq. Lia.lia.
+Qed.
+Print Assumptions altercase_table_is_documented.
